@@ -9,6 +9,7 @@ import (
 	"bytes"
 	"crypto/sha256"
 	"encoding/hex"
+	"encoding/json"
 	"fmt"
 	"math/big"
 	"os"
@@ -881,12 +882,31 @@ func keystoreRoundTrips(run *ev.Run, w0 *ksWorker, keys []keyCase, passes []pass
 			fail("Update-wrong-passphrase", "accepted")
 		}
 		newPass := pass + "é"
+		// the file being replaced is longer than what Update writes (a pretty-printed file, as other
+		// wallets write them): the rewrite must replace it, not overlay it
+		if raw, err := os.ReadFile(a.URL.Path); err == nil {
+			var buf bytes.Buffer
+			if json.Indent(&buf, raw, "", "      ") == nil {
+				if err := os.WriteFile(a.URL.Path, buf.Bytes(), 0600); err != nil {
+					ev.Broken("cannot rewrite key file: %v", err)
+				}
+				if err := ks.Unlock(a, pass); err != nil {
+					fail("Unlock-pretty-printed-file", err.Error())
+				}
+				ks.Lock(a.Address)
+			}
+		}
 		if err := ks.Update(a, pass, newPass); err != nil {
 			fail("Update", err.Error())
 			return
 		}
 		if err := ks.Unlock(a, pass); err == nil {
 			fail("Update-old-passphrase-unlocks", "accepted")
+		}
+		if nf, err := os.ReadFile(a.URL.Path); err != nil {
+			fail("file-after-Update", err.Error())
+		} else if k, err := keystore.DecryptKey(nf, newPass); err != nil || k.Address != j.k.addr {
+			fail("file-after-Update", fmt.Sprintf("the rewritten key file does not decrypt with the new passphrase: %v", err))
 		}
 		if err := ks.Unlock(a, newPass); err != nil {
 			fail("Unlock-after-Update", err.Error())
